@@ -354,17 +354,28 @@ REGISTER_DEFAULTS = {
 }
 
 
+def registers_owner(st, regs_ref):
+    regs = st.deref_all(regs_ref)
+    if isinstance(regs, Opaque): return regs.tag[0].replace('_REGISTERS', '')
+    if isinstance(regs, Adt) and regs.ty == 'Registers':
+        r = regs_ref
+        while isinstance(st.deref(r), Ref): r = st.deref(r)
+        return f'@{r.alloc}{list(r.path)}'
+    raise Unsupported(f'Registers::get_mut on {regs!r}')
+
+
+def scope_registers_owner(ex, st, rt_ref, depth=0):
+    """owner key of the registers a renderable reaches through the runtime it was handed (runs the real registers() chain)"""
+    outs = list(ex.call('<dyn Runtime as Runtime>::registers', [rt_ref], st, depth))
+    if len(outs) != 1 or outs[0][1] != 'ret': raise Unsupported('registers() did not return a single value')
+    return registers_owner(outs[0][0], outs[0][2])
+
+
 def registers_models():
     """Registers::get_mut::<T>() -> RefMut<T>: one place per (registers object, T); borrow-tracked like a RefCell"""
     from mirsym.models.core import panic as _panic
     def m_get_mut(ctx, args, st):
-        regs = st.deref_all(args[0])
-        owner = regs.tag[0].replace('_REGISTERS', '') if isinstance(regs, Opaque) else None
-        if owner is None and isinstance(regs, Adt) and regs.ty == 'Registers':
-            r = args[0]
-            while isinstance(st.deref(r), Ref): r = st.deref(r)
-            owner = f'@{r.alloc}{list(r.path)}'
-        if owner is None: raise Unsupported(f'Registers::get_mut on {regs!r}')
+        owner = registers_owner(st, args[0])
         T = re.search(r'get_mut::<(.*)>$', ctx.callee, re.S).group(1).split('::')[-1]
         if T == 'InterruptRegister':
             place = interrupt_place(st, owner)
@@ -462,7 +473,12 @@ class ChildEnv:
                     s2 = s.clone() if i < len(opts) - 1 else s
                     s2.assume(cond)
                     s2.env['child_outcomes'] = s2.env.get('child_outcomes', ()) + ((self.name, nth, res, intr),)
-                    if intr: interrupt_set(s2, intr, self.owner)
+                    if intr:
+                        owner = self.owner
+                        if owner == 'scope':
+                            owner = scope_registers_owner(ex, s2, args[2], ctx.depth)
+                            s2.env['interrupt_owners'] = s2.env.get('interrupt_owners', ()) + (owner,)
+                        interrupt_set(s2, intr, owner)
                     yield s2, 'ret', (Ok(UNIT) if res == 'ok' else Err(Adt('LiquidError', None, [Opaque(('msg', f'child {self.name} failed'))])))
             w = st.deref_all(args[1])
             if self.max_writes and isinstance(w, VecV):
